@@ -32,10 +32,10 @@ def run(c):
         t1 = c.rundir / "backoff_exh.ndjson"
         c.drive(drv, ["backoff", "exhaustive", c.pick(4, 6), t1])
         t2 = c.rundir / "backoff_rand.ndjson"
-        c.drive(drv, ["backoff", "random", c.seed, c.pick(150, 3000), t2])
+        c.drive(drv, ["backoff", "random", c.seed, c.pick(400, 3000), t2])
         storage = [t1, t2]
         t3 = c.rundir / "router_backoff.ndjson"
-        c.drive(drv, ["router", "random", "backoff", c.seed * 1000 + 7, c.pick(120, 2500), 40, t3])
+        c.drive(drv, ["router", "random", "backoff", c.seed * 1000 + 7, c.pick(300, 2500), 40, t3])
         routers = [t3]
     distinct = set()
     for t in storage:
